@@ -5,8 +5,9 @@ namespace C13L
 open Canvas.C13 Canvas.C13.Rd Canvas.C13.P
 
 /-- a number-like token followed by a tail parses to its own text -/
-theorem parse_numTok (f : Nat) (p T : Bytes) (hp : numTok p = true) (hT : Tail T) :
+theorem parse_numTok (f : Nat) (p T : Bytes) (hs : isNumTok p = true) (hT : Tail T) :
     parseVal (f + 1) (p ++ T) = some (.num p, T) := by
+  have hp := isNumTok_numTok p hs
   obtain ⟨c, r, e, hc, hall⟩ := numTok_cons p hp
   have pr := numChar_props c hc
   have pr2 := numChar_props2 c hc
@@ -17,7 +18,7 @@ theorem parse_numTok (f : Nat) (p T : Bytes) (hp : numTok p = true) (hT : Tail T
   have hsk : skipWs (p ++ T) = c :: (r ++ T) := by rw [e]; exact skipWs_cons_of_not_ws _ pr.2.1
   rw [hsk]
   have hspan' : spanReg (c :: (r ++ T)) = (p, T) := by rw [← hspan, e]; rfl
-  simp only [pr2.1, pr2.2.1, pr2.2.2.1, pr2.2.2.2, if_false, pr.1, if_true, hspan', hT.noRef, hkw.1, hkw.2]
+  simp only [pr2.1, pr2.2.1, pr2.2.2.1, pr2.2.2.2, if_false, pr.1, if_true, hspan', hT.noRef, hkw.1, hkw.2, hs]
   split <;> rfl
 
 theorem parse_kw (f : Nat) (k T : Bytes) (b : Bool) (hk : k = if b then kTrue else kFalse) (hT : Tail T) :
